@@ -81,6 +81,10 @@ type Subscriber struct {
 	closeOnce sync.Once
 	// watchDone signals that the watch function exited.
 	watchDone chan struct{}
+	// asyncCtx is the context of all announce-triggered syncs; asyncCancel
+	// cancels them when the subscriber is closed.
+	asyncCtx    context.Context
+	asyncCancel context.CancelFunc
 	asyncWG   sync.WaitGroup
 
 	ipniSync *ipnisync.Sync
@@ -259,6 +263,7 @@ func NewSubscriber(host host.Host, lsys ipld.LinkSystem, options ...Option) (*Su
 			return nil, fmt.Errorf("failed to create announcement receiver: %w", err)
 		}
 		s.watchDone = make(chan struct{})
+		s.asyncCtx, s.asyncCancel = context.WithCancel(context.Background())
 		// Start watcher to read announce messages.
 		go s.watch()
 	}
@@ -313,6 +318,12 @@ func (s *Subscriber) Close() error {
 func (s *Subscriber) doClose() error {
 	// Cancel idle handler cleaner.
 	close(s.closing)
+	// Cancel announce-triggered syncs now: an explicit sync that Close waits
+	// for below may itself be waiting for one of them to release its
+	// publisher's lock.
+	if s.asyncCancel != nil {
+		s.asyncCancel()
+	}
 	verifhook.Point("close.step", 1)
 
 	// Block any additional explicit Sync calls.
@@ -762,8 +773,8 @@ func (s *Subscriber) watch() {
 	defer close(s.watchDone)
 
 	// Cancel any pending messages if this function exits.
-	ctx, cancel := context.WithCancel(context.Background())
-	defer cancel()
+	ctx := s.asyncCtx
+	defer s.asyncCancel()
 
 	for {
 		amsg, err := s.receiver.Next(context.Background())
